@@ -129,11 +129,30 @@ def split_transcript(text):
 
 
 def run_harness(profile, scn_path, isolate=False):
-    """run the scenario file on the real generated code; returns list of per-scenario line lists"""
+    """run the scenario file on the real generated code; returns list of per-scenario line lists.
+    If the process dies (debug builds: std's UB checks abort, they do not unwind) every scenario is re-run in
+    its own process, line by line; the step that killed it is reported as `I <step> abort` / `S <step> abort`."""
     rc, out, err = run([harness_bin(profile), "run", scn_path], timeout=3600)
-    if rc != 0:
-        raise BuildError(f"harness run failed rc={rc}: {err[-2000:]}\n{out[-500:]}")
-    return split_transcript(out)
+    if rc == 0:
+        return split_transcript(out)
+    n = sum(1 for l in open(scn_path) if l.startswith("shape "))
+    import concurrent.futures
+    def one(k):
+        rc1, out1, err1 = run([harness_bin(profile), "run1", scn_path, str(k)], timeout=600)
+        lines = [l for l in out1.splitlines() if not l.startswith("# scenario")]
+        if rc1 != 0:
+            steps = [l for l in lines if l.startswith("# step")]
+            step = steps[-1].split()[2] if steps else "0"
+            lines = [l for l in lines if not l.startswith("# step")]
+            # drop a half-reported step, then mark the abort
+            lines = [l for l in lines if l.split()[1] != step]
+            lines += [f"I {step} abort ret=- rev=[] ev=[] regs=~ signal={-rc1 if rc1 < 0 else rc1}", f"S {step} noabort ret=- rev=[] ev=[] regs=~"]
+            lines += ["I end abort double_drop=false leak=false", "S end abort double_drop=false leak=false"]
+        else:
+            lines = [l for l in lines if not l.startswith("# step")]
+        return lines
+    with concurrent.futures.ThreadPoolExecutor(max_workers=16) as ex:
+        return list(ex.map(one, range(n)))
 
 
 def run_model(scn_path, prof="debug"):
